@@ -88,27 +88,34 @@ class Annotator:
                 out.append(["assign", s[1], a])
             elif k == "if":
                 saved = dict(self.types)
-                brs = []
+                brs, new = [], {}
                 for c, b in s[1]:
                     ca = self.ann(c)
                     self.types = dict(saved)
                     brs.append([ca, self.stmts(b)])
+                    new.update({n: t for n, t in self.types.items() if n not in saved and n not in new})
                 self.types = dict(saved)
                 els = self.stmts(s[2])
+                new.update({n: t for n, t in self.types.items() if n not in saved and n not in new})
                 self.types = dict(saved)
+                self.types.update(new)          # names first assigned in a branch stay known (hoisted by the parser)
                 out.append(["if", brs, els])
             elif k == "while":
                 ca = self.ann(s[1])
                 saved = dict(self.types)
                 b = self.stmts(s[2])
+                new = {n: t for n, t in self.types.items() if n not in saved}
                 self.types = saved
+                self.types.update(new)
                 out.append(["while", ca, b])
             elif k == "for":
                 ca = self.ann(s[2])
                 saved = dict(self.types)
                 self.types[s[1]] = "int"
                 b = self.stmts(s[3])
+                new = {n: t for n, t in self.types.items() if n not in saved and n != s[1]}
                 self.types = saved
+                self.types.update(new)
                 out.append(["for", s[1], ca, b])
             elif k == "break":
                 out.append(["break"])
